@@ -47,4 +47,8 @@ def c01_probes() -> list[Item]:
     # CODECOPY straddling the end of the code zero-fills
     out.append(_p("codecopy-past-end",
                   [("PUSHN", 32, (1 << 256) - 1), ("PUSH", 0), "MSTORE", ("PUSH", 32), ("PUSH", 4), "CODESIZE", "SUB", ("PUSH", 0), "CODECOPY", ("PUSH", 0), "MLOAD"] + RET))
+    # a loop whose head is the JUMPDEST at pc 0: the backward JUMP must land there
+    out.append(_p("loop-head-at-pc0",
+                  [("LABEL", "h"), ("PUSH", 0), "MLOAD", ("PUSHL", "x"), "JUMPI", ("PUSH", 1), ("PUSH", 0), "MSTORE", ("PUSHL", "h"), "JUMP", "INVALID",
+                   ("LABEL", "x"), ("PUSH", 0xC1)] + RET))
     return out
